@@ -452,7 +452,11 @@ class Interp:
         pkg = fr.globs.get("__package__")
         mod = importlib.import_module("." * s.level + (s.module or ""), pkg) if s.level else importlib.import_module(s.module)
         for al in s.names:
-            fr.store(al.asname or al.name, getattr(mod, al.name))
+            try:
+                v = getattr(mod, al.name)
+            except AttributeError:
+                v = importlib.import_module(mod.__name__ + "." + al.name)      # from package import submodule
+            fr.store(al.asname or al.name, v)
 
     def x_Global(self, s, fr):
         fr.globals_decl.update(s.names)
